@@ -39,6 +39,7 @@ void sim_wstats_get(struct sim_wstats *);
 size_t sim_wlog(uint32_t *sizes, size_t max);
 
 /* ---- mmap mode ---- */
+void sim_mmap_fail_in(int n);	/* fault: the n-th mmap call from now fails with ENOMEM (one shot; 0 = off) */
 void sim_mmap_exact_heap(int on);	/* 1: mmap returns an exact-size heap copy (ASan red zones on both ends) */
 
 /* ---- clock ---- */
@@ -49,7 +50,7 @@ uint64_t sim_clock_reads(void);
 
 /* ---- ledger ---- */
 struct sim_ledger {
-	int64_t opens, closes, dups, mmaps, munmaps, mkstemps, unlinks;
+	int64_t opens, closes, dups, mmaps, munmaps, mkstemps, unlinks, mmap_failures;
 	int64_t live_fds, live_maps, live_tmp;
 };
 void sim_ledger_get(struct sim_ledger *);
